@@ -69,7 +69,7 @@ fn ty_of(dk: u32) -> Option<Ty> {
         _ => None,
     }
 }
-pub const DKS: [u32; 48] = [1, 2, 3, 4, 5, 6, 7, 8, 9, 10, 11, 12, 13, 14, 15, 16, 17, 18, 19, 20, 21, 22, 23, 24, 25,
+pub const DKS: [u32; 49] = [76, 1, 2, 3, 4, 5, 6, 7, 8, 9, 10, 11, 12, 13, 14, 15, 16, 17, 18, 19, 20, 21, 22, 23, 24, 25,
     31, 33, 36, 37, 41, 42, 43, 45, 47, 48, 49, 50, 51, 52, 55, 53, 54, 70, 71, 72, 73, 74, 75];
 
 fn msg_type_code(t: &MessageType) -> i128 { match t { MessageType::Invalid => 0, MessageType::Hello => 1, MessageType::Acknowledge => 2, MessageType::Chunk => 3, MessageType::Error => 4 } }
@@ -93,6 +93,41 @@ fn decode(dk: u32, o: &HOpts, bs: &[u8]) -> (Result<Vec<i128>, ()>, u64, u64) {
         let mut s = DepthReader { cur: Cursor::new(bs), gauge: ro.decoding_depth_gauge.clone(), max_seen: 0 };
         let ok = st::observe((dk - 100) as usize, &ro, &mut s);
         return (if ok { Ok(vec![]) } else { Err(()) }, s.cur.position(), s.max_seen);
+    }
+    if dk == 76 {
+        // the framing layer: TcpCodec::decode on a receive buffer holding the bytes (the buffer itself is the
+        // harness's: it is built with the allocation tracker off)
+        use opcua::core::comms::tcp_codec::{Message, TcpCodec};
+        use tokio_util::codec::Decoder;
+        let was = TRACK.swap(false, Ordering::Relaxed);
+        let mut buf = bytes::BytesMut::with_capacity(bs.len());
+        buf.extend_from_slice(bs);
+        let mut codec = TcpCodec::new(ro.clone());
+        TRACK.store(was, Ordering::Relaxed);
+        let r = codec.decode(&mut buf);
+        let was = TRACK.swap(false, Ordering::Relaxed);
+        let mut p: Vec<i128> = Vec::new();
+        let left = buf.len();
+        let res = match r {
+            Ok(None) => { p.push(1); Ok(p) }
+            Ok(Some(m)) => {
+                p.push(0);
+                match m {
+                    Message::Hello(m) => { p_header(&m.message_header, &mut p);
+                        p.extend([m.protocol_version, m.receive_buffer_size, m.send_buffer_size, m.max_message_size, m.max_chunk_count].iter().map(|x| *x as i128));
+                        p_ustr(&m.endpoint_url, &mut p) }
+                    Message::Acknowledge(m) => { p_header(&m.message_header, &mut p);
+                        p.extend([m.protocol_version, m.receive_buffer_size, m.send_buffer_size, m.max_message_size, m.max_chunk_count].iter().map(|x| *x as i128)) }
+                    Message::Error(m) => { p_header(&m.message_header, &mut p); p.push(m.error as i128); p_ustr(&m.reason, &mut p) }
+                    Message::Chunk(c) => { p.push(c.data.len() as i128); p.extend(c.data.iter().map(|b| *b as i128)) }
+                }
+                Ok(p)
+            }
+            Err(_) => Err(()),
+        };
+        drop(buf); drop(codec);
+        TRACK.store(was, Ordering::Relaxed);
+        return (res, (bs.len() - left) as u64, 0);
     }
     let mut s = Cursor::new(bs);
     let mut p: Vec<i128> = Vec::new();
@@ -130,13 +165,45 @@ fn observe(dk: u32, o: &HOpts, bs: &[u8]) -> Vec<i128> {
 }
 
 /// accepted chunks are printed whole: keep them small
-fn small_chunks(dk: u32, o: HOpts) -> HOpts { if dk == 75 { HOpts { max_msg: 48, ..o } } else { o } }
+fn small_chunks(dk: u32, o: HOpts) -> HOpts { if dk == 75 || dk == 76 { HOpts { max_msg: 48, ..o } } else { o } }
 
 fn nest_bytes(unit: &[u8], n: u32, tail: &[u8]) -> Vec<u8> {
     let mut b = Vec::with_capacity(unit.len() * n as usize + tail.len());
     for _ in 0..n { b.extend_from_slice(unit); }
     b.extend_from_slice(tail);
     b
+}
+
+/// a frame for the framing layer: a type, a declared size and `have` bytes of it in the buffer (plus `extra`
+/// bytes of the next frame)
+fn frame(t: &[u8; 4], declared: u32, body: &[u8], extra: &[u8]) -> Vec<u8> {
+    let mut bs = t.to_vec(); bs.extend(declared.to_le_bytes()); bs.extend_from_slice(body); bs.extend_from_slice(extra); bs
+}
+const FRAME_TYPES: [&[u8; 4]; 9] = [b"HELF", b"ACKF", b"ERRF", b"MSGF", b"OPNF", b"CLOF", b"MSGC", b"MSGA", b"XYZF"];
+fn frame_case(r: &mut Rng) -> Case {
+    let limit: i64 = *r.pick(&[0i64, 48, 64, 100, 327675]);
+    let o = HOpts { max_msg: limit, max_str: 40, ..HOpts::default() };
+    let t = *r.pick(&FRAME_TYPES);
+    // a body that makes sense for the type
+    let mut body: Vec<u8> = match &t[..3] {
+        b"HEL" => { let mut b = Vec::new(); for x in [0u32, 8192, 8192, 0, 0] { b.extend(x.to_le_bytes()); } let n = r.below(12) as usize; let u = r.bytes(n).iter().map(|c| b'a' + c % 26).collect::<Vec<u8>>(); b.extend((u.len() as i32).to_le_bytes()); b.extend(u); b }
+        b"ACK" => { let mut b = Vec::new(); for _ in 0..5 { b.extend((r.next() as u32).to_le_bytes()); } b }
+        b"ERR" => { let mut b = (r.next() as u32).to_le_bytes().to_vec(); b.extend((-1i32).to_le_bytes()); b }
+        _ => { let n = 4 + r.below(24) as usize; r.bytes(n) }
+    };
+    let full = 8 + body.len() as u32;
+    let declared = match r.below(10) {
+        0..=3 => full,
+        4 => full + 1 + r.below(20) as u32,                       // incomplete frame within the limit
+        5 => if limit > 0 { limit as u32 + 1 + r.below(3) as u32 } else { 1 << 20 },   // over the limit
+        6 => *r.pick(&[1u32 << 20, 1 << 26, (1 << 26) + 17]),    // far over the limit, body incomplete
+        7 => r.below(9) as u32,                                   // smaller than the header
+        8 => if limit > 0 { limit as u32 } else { full },
+        _ => full.saturating_sub(1 + r.below(4) as u32),
+    };
+    if r.chance(1, 4) { let k = r.below(body.len() as u64 + 1) as usize; body.truncate(k); }
+    let extra = if r.chance(1, 3) { let n = r.below(12) as usize; r.bytes(n) } else { vec![] };
+    Case::Bytes { dk: 76, o, bs: frame(t, declared, &body, &extra) }
 }
 
 /// the deep-nesting cases run in a child process with a 1 MiB main-thread-independent stack
@@ -229,6 +296,15 @@ impl Property for P {
             let mut bs = b"MSGF".to_vec(); bs.extend(size.to_le_bytes()); bs.extend(7u32.to_le_bytes()); bs.extend([1u8, 2, 3, 4]);
             v.push(Case::Bytes { dk: 75, o: HOpts { max_msg: 40, ..HOpts::default() }, bs });
         }
+        // the framing layer: a declared size over the limit is refused whether or not the body has arrived, and
+        // an incomplete frame makes the codec wait without reserving anything for it
+        for t in FRAME_TYPES {
+            for (limit, declared) in [(64i64, 65u32), (64, 64), (64, 1 << 26), (327675, 327676), (327675, 1 << 26), (0, 1 << 26), (48, 20), (48, 8), (48, 0)] {
+                for have in [0usize, 1, 8, 12] {
+                    v.push(Case::Bytes { dk: 76, o: HOpts { max_msg: limit, ..HOpts::default() }, bs: frame(t, declared, &vec![7u8; have], &[]) });
+                }
+            }
+        }
         // invalid UTF-8 families
         for s in [vec![0xC0u8, 0x80], vec![0xED, 0xA0, 0x80], vec![0xF4, 0x90, 0x80, 0x80], vec![0xE0, 0x9F, 0x80], vec![0xF0, 0x8F, 0x80, 0x80],
                   vec![0xC2], vec![0xEF, 0xBF, 0xBF], vec![0xF4, 0x8F, 0xBF, 0xBF], vec![0x80], vec![0xF8, 0x88, 0x80, 0x80, 0x80], vec![0xED, 0x9F, 0xBF], vec![0xE1, 0x80]] {
@@ -251,6 +327,7 @@ impl Property for P {
             if bs.len() > 160 { bs.truncate(160); }
             return Case::Bytes { dk: 100 + idx as u32, o, bs };
         }
+        if r.chance(1, 8) { return frame_case(r); }
         match r.below(10) {
             // purely random bytes
             0 | 1 => { let dk = *r.pick(&DKS); let n = 1 + r.below(24) as usize; let o = small_chunks(dk, o); Case::Bytes { dk, o, bs: r.bytes(n) } }
